@@ -178,6 +178,35 @@ func TestParsedPrograms(t *testing.T) {
 	})
 }
 
+// TestLargePrograms: programs of 120-200 generated statements, and programs that repeat a few
+// statements up to some thousand times — more than one block of whatever the parser allocates in
+// blocks. The traversal clauses and "no node object reachable along two paths" must hold there too.
+func TestLargePrograms(t *testing.T) {
+	harness.Check(t, "large-programs", 100, 4000, func(rt *rapid.T) {
+		v := rapid.SampledFrom([]px.Ver{px.V56, px.V74}).Draw(rt, "version")
+		var src []byte
+		if rapid.Bool().Draw(rt, "repeated") {
+			src = inputs.ManyStatements(rt)
+			harness.Class("src=many-statements")
+		} else {
+			o := progs.Options(v)
+			o.NoHalt = true
+			c := progs.Draw(rt, v, o, 120, 200)
+			src = c.G.Render(c.Root, progs.Policy(rt, phpgen.PolicySpace, nil)).Src
+			harness.Class("src=large-generated")
+		}
+		r := px.Parse(src, v, true)
+		harness.Eval()
+		if r.Root == nil || r.Panic != "" {
+			return
+		}
+		if m := checkParsed(r.Root); m != "" {
+			harness.Fail(rt, "parsed-tree", src, map[string]string{"version": v.String()}, "[%s errors=%d] large program: %s", v, len(r.Errs), m)
+		}
+		harness.NonTrivial(src, fmt.Sprintf("[%s] large program, %d nodes: %q...", v, len(astx.Nodes(r.Root)), trunc(src, 120)))
+	})
+}
+
 func trunc(b []byte, n int) []byte {
 	if len(b) > n {
 		return b[:n]
